@@ -11,10 +11,11 @@ import (
 
 	"mcverif/engine"
 	"mcverif/gen"
+	"mcverif/vmap"
 )
 
 var Spec = engine.Spec{
-	ID: "C08", Run: Run, QuickBud: 4 * time.Minute, ThorBud: 30 * time.Minute,
+	ID: "C08", Run: Run, MapOrders: true, MapOrdersQuick: []int{vmap.Alternating}, QuickBud: 4 * time.Minute, ThorBud: 30 * time.Minute,
 	Technique: "explicit-state breadth-first search over editing-operation histories on real NodeList values (successor = replay of the path on fresh instances + one operation), canonical-key de-duplication, invariant checked in every state, RemoveNodes against a triple-set model",
 	Rule:      "state = NodeList reached by a history; key = sorted ids + sorted roots with multiplicity + sorted multiset of edge objects; transition = one of ~100 operations (Union/Intersect/Add/RelateNodeListAtID with 8 library lists, RemoveNodes of every id subset, RelateNodeAtID, NodeGraph/NodeSiblings/NodeDescendants/GetNodesByPurlType whose result becomes the next state)",
 	Assume:    []string{"premise checked on every step: receiver and argument well-formed; a step whose argument was corrupted by an earlier aliasing effect is skipped and counted (that is C12's subject)"},
